@@ -26,10 +26,13 @@ def h(*parts) -> bytes:
 @contextlib.contextmanager
 def ephemeral(seed32: bytes):
     """Route the controller's X25519 ephemeral key to a generated value (harness-level rebinding, DESIGN 2.3)."""
+    calls = []
+
     class _Priv:
         @staticmethod
         def generate():
-            return real_x25519.X25519PrivateKey.from_private_bytes(seed32)
+            calls.append(1)        # every call yields another key, as the real generator does
+            return real_x25519.X25519PrivateKey.from_private_bytes(seed32 if len(calls) == 1 else h(seed32, len(calls)))
     shim = types.SimpleNamespace(X25519PrivateKey=_Priv, X25519PublicKey=real_x25519.X25519PublicKey)
     orig = proto.x25519
     proto.x25519 = shim
@@ -276,6 +279,84 @@ def run_full(case, R):
                 R.fail("C01.no-outcome", f"{what}: neither keys nor error")
 
 
+def run_tape(case, R):
+    """Two exchanges of the real code with the same pairing record.  The first is honest and recorded; in the second a peer that holds no
+    key at all replays the recorded M2 (and an M4 of its choice).  Also: the controller's exchange key must be fresh in every exchange."""
+    world = World(case)
+    k = case["k"]
+    transport = case.get("decode", "ip")
+    R.nt()
+    R.cls("tape", "decode:" + transport, "between:%d" % case.get("between", 0))
+    first = run_exchange(world, (k, "tape", 0), transport, allow_resume=False)
+    if check_honest(R, world, first, "recorded exchange") is None:
+        return
+    seen = [dict(first["m1"]).get(T_PK)]
+    for i in range(case.get("between", 0)):
+        mid = run_exchange(world, (k, "tape", "mid", i), transport, allow_resume=False)
+        if check_honest(R, world, mid, f"exchange {i} between recording and replay") is None:
+            return
+        seen.append(dict(mid["m1"]).get(T_PK))
+    tape = first["m2_raw"]
+    out = run_exchange(world, (k, "tape", 1), transport, lambda acc, honest: tape, allow_resume=False, m4_items=[(T_STATE, b"\x04")])
+    pk = dict(out.get("m1") or []).get(T_PK)
+    if pk in seen:
+        R.fail("C01.exchange-key-reused", f"the controller sent the same exchange public key {bytes(pk).hex()[:16]}.. in two exchanges", decode=transport)
+        return
+    check_rejected(R, out, f"M2/M4 recorded from an earlier exchange replayed (decode={transport})", "tape-replay")
+
+
+def run_m4(case, R):
+    """Honest M2, then an M4 that is cut short.  M4 carries no proof, so the only demands are: a well-formed error-free State=4 reply is the
+    honest one; every cut that is not a well-formed TLV sequence (and every cut that still carries the error) must fail."""
+    world = World(case)
+    k = case["k"]
+    transport = case.get("decode", "ip")
+    code = case["code"]
+    full = tlv_enc([(T_STATE, b"\x04")] + ([(refhap.T_ERROR, bytes([code]))] if code else []))
+    n = 1 + case["n"] % (len(full) - 1)
+    raw = full[:n]
+    R.nt()
+    R.cls("m4-truncate", "decode:" + transport)
+    acc = RefPairVerify(world.ident, h("acc-eph", k), allow_resume=False)
+    res, exc = None, None
+    with ephemeral(h("ios-eph", k)):
+        g = get_session_keys(world.pairing_data)
+        try:
+            req, exp = g.send(None)
+            req, exp = g.send(decode_as(transport, tlv_enc(acc.handle_m1(refhap.tlv_dec(bytes(TLV.encode_list(req))))), exp))
+            acc.handle_m3(refhap.tlv_dec(bytes(TLV.encode_list(req))))
+            g.send(decode_as(transport, raw, exp))
+            exc = RuntimeError("generator yielded a fourth request")
+        except StopIteration as r:
+            res = r.value
+        except Exception as e:  # noqa: BLE001
+            exc = e
+    if raw == tlv_enc([(T_STATE, b"\x04")]):
+        if res is None:
+            R.fail("C01.honest-rejected", f"M4 = 06 01 04 rejected with {type(exc).__name__}: {exc}", exc=type(exc).__name__)
+        return
+    if res is not None:
+        R.fail("C01.forged-reply-accepted", f"M4 cut to {raw.hex()} (of {full.hex()}) decode={transport}: keys returned", family="m4-truncate")
+
+
+def enum_tape(tier):
+    i = 0
+    for dec in ("ip", "ble"):
+        for between in (0, 1, 2):
+            for rep in range(2 if tier == "quick" else 12):
+                i += 1
+                yield {"k": SEED * 15485863 + i, "acc_id": ["AA:BB:CC:DD:EE:FF", "b"][rep % 2], "ios_id": "ios-%d" % rep, "decode": dec, "between": between}
+
+
+def enum_m4(tier):
+    i = 0
+    for dec in ("ip", "ble"):
+        for code in (0, 1, 2, 3, 4, 5, 6, 7, 255):
+            for n in range(5 if code else 2):
+                i += 1
+                yield {"k": SEED * 32452843 + i, "acc_id": "AA:BB:CC:DD:EE:FF", "ios_id": "ios-1", "decode": dec, "code": code, "n": n}
+
+
 def run_resume(case, R):
     """full verify, then a resumed verify with one fault (or honest / chained / refused)."""
     world = World(case)
@@ -495,6 +576,9 @@ SPEC = Property(
               space="all single-bit flips of PublicKey, EncryptedData, State, inner Identifier and inner Signature of 6 exchanges (60 in thorough)", min_nontrivial=5),
         Layer("fault-families", run_full, enumerate=enum_families, exhaustive=True, space="every fault family x {ip, ble} decode, truncation at every 3rd byte", min_nontrivial=100),
         Layer("faults-gen", run_full, strategy=full_cases, n={"quick": 16000, "thorough": 300000}, min_nontrivial=1000),
+        Layer("tape-replay", run_tape, enumerate=enum_tape, exhaustive=True,
+              space="honest exchange recorded, 0..2 further exchanges, then M2/M4 replayed to a new exchange; exchange keys of all exchanges pairwise distinct", min_nontrivial=10),
+        Layer("m4-truncated", run_m4, enumerate=enum_m4, exhaustive=True, space="honest and error M4 (codes 1..7, 255) cut at every byte x {ip, ble} decode", min_nontrivial=50),
         Layer("resume-families", run_resume, enumerate=enum_resume, exhaustive=True, space="every resume fault incl. all 128 tag bits and 64 session-id bits, chain 0/1", min_nontrivial=100),
         Layer("resume-gen", run_resume, strategy=resume_cases, n={"quick": 4000, "thorough": 60000}, min_nontrivial=100),
         *C01_BLE_LAYERS,
